@@ -1,0 +1,36 @@
+//go:build verif
+
+// Contracts checked by /verif/gowp. This file contains comments only and is compiled only
+// with -tags verif.
+
+package watch
+
+// C13: the watch garbage collector stops only composed-resource watches that no listed XR
+// references; the XR watch and the CompositionRevision watch of the controller are never
+// collected, and only watches that are actually running are passed to StopWatches.
+
+//@ func (*watch.GarbageCollector).GarbageCollectWatchesNow
+//@ props C13
+//@ let $running = result (watch.ControllerEngine).GetWatches
+//@ loop range running
+//@   invariant [C13:collect-only-composed] forall i :: 0 <= i && i < len(stop) ==> stop[i].Type == "ComposedResource"
+//@   invariant [C13:collect-only-unused] forall i :: 0 <= i && i < len(stop) ==> !used[stop[i]]
+//@   invariant [C13:collect-only-running] forall i :: 0 <= i && i < len(stop) ==> (exists j :: 0 <= j && j < done && $running[j] == stop[i])
+//@ site builtin.append($to, $add...) as collect
+//@   where $to == stop
+//@   witness n = len($running)
+//@   witness idx = index
+//@   witness composed[j<6] = $running[j].Type == "ComposedResource"
+//@   witness used[j<6] = used[$running[j]]
+//@   assert [C13:collected-watch-is-a-composed-resource-watch] len($add) == 1 && $add[0].Type == "ComposedResource"
+//@   assert [C13:collected-watch-is-unused] !used[$add[0]]
+//@   assert [C13:collected-watch-is-running] $add[0] == wid
+//@ site (watch.ControllerEngine).StopWatches(_, _, $name, $stop...)
+//@   witness n = len($running)
+//@   witness nstop = len($stop)
+//@   witness composed[j<6] = $running[j].Type == "ComposedResource"
+//@   witness used[j<6] = used[$running[j]]
+//@   assert [C13:only-composed-resource-watches-stopped] forall i :: 0 <= i && i < len($stop) ==> $stop[i].Type == "ComposedResource"
+//@   assert [C13:only-unused-watches-stopped] forall i :: 0 <= i && i < len($stop) ==> !used[$stop[i]]
+//@   assert [C13:only-running-watches-stopped] forall i :: 0 <= i && i < len($stop) ==> (exists j :: 0 <= j && j < len($running) && $running[j] == $stop[i])
+//@   assert [C13:own-controller] $name == gc.controllerName
